@@ -1504,7 +1504,11 @@ get_hist_size(struct isal_zstream *stream, uint8_t *start_in, int32_t buf_hist_s
                         history_size = (stream->total_in - state->block_next);
                 }
         } else if (stream->avail_in + buffered_size == 0 &&
-                   (stream->end_of_stream || stream->flush == FULL_FLUSH)) {
+                   (stream->end_of_stream || state->has_hist == IGZIP_NO_HIST)) {
+                /* No history is needed once the stream ends or a full flush has
+                 * completed (has_hist is cleared by sync_flush). A full flush that
+                 * is still pending is not enough: the caller may supply more input
+                 * before it completes and the hash table still refers to this data */
                 history_size = 0;
         }
         return history_size;
